@@ -538,6 +538,9 @@ func TestC20Pools(t *testing.T) { pbt.Run(t, c20Pools) }
 type C20Players struct {
 	Cap        int     `json:"cap"`
 	Goroutines [][]int `json:"goroutines"` // per goroutine: op codes 0 join 1 left 2 check 3 len 4 samples; yields interleaved
+	// SharedIDs > 0: the clients' profile UUIDs are drawn from that many values (several connections of one
+	// account, or the all-zero UUID of samples nobody filled in); 0: pairwise distinct
+	SharedIDs int `json:"shared_ids,omitempty"`
 }
 
 type c20Client struct{ disconnected int32 }
@@ -558,7 +561,11 @@ func c20CheckPlayers(c C20Players) *pbt.Violation {
 			for i, op := range ops {
 				switch op % 5 {
 				case 0:
-					pl.ClientJoin(cl, server.PlayerSample{Name: fmt.Sprintf("p%d", g), ID: uuid.UUID{byte(g)}})
+					id := uuid.UUID{byte(g + 1)}
+					if c.SharedIDs > 0 {
+						id = uuid.UUID{byte(g%c.SharedIDs + c.SharedIDs%2)} // two values: incl. uuid.Nil
+					}
+					pl.ClientJoin(cl, server.PlayerSample{Name: fmt.Sprintf("p%d", g), ID: id})
 				case 1:
 					pl.ClientLeft(cl)
 				case 2:
@@ -601,7 +608,7 @@ func c20CheckPlayers(c C20Players) *pbt.Violation {
 var c20Players = pbt.Register(pbt.Prop[C20Players]{
 	Name: "C20Players",
 	Gen: func(t *rapid.T) C20Players {
-		c := C20Players{Cap: rapid.IntRange(1, 8).Draw(t, "cap")}
+		c := C20Players{Cap: rapid.IntRange(1, 8).Draw(t, "cap"), SharedIDs: rapid.SampledFrom([]int{0, 0, 1, 2, 3}).Draw(t, "shared_ids")}
 		for i, n := 0, rapid.IntRange(2, 16).Draw(t, "goroutines"); i < n; i++ {
 			c.Goroutines = append(c.Goroutines, rapid.SliceOfN(rapid.IntRange(0, 19), 1, 30).Draw(t, "ops"))
 		}
